@@ -144,6 +144,16 @@ func check(prop, tier, repo, verif string) (code int) {
 			extra[k] = v
 		}
 	}
+	if tier == "thorough" && os.Getenv("HRVERIF_CHILD") == "" {
+		ev, misses := thoroughSeeds(prop, repo, verif)
+		for k, v := range ev {
+			extra[k] = v
+		}
+		for _, m := range misses {
+			// a lost detection is a weakness of the checker, not a violation of the analysed tree: reported, never an alarm
+			fmt.Println("note: " + m)
+		}
+	}
 	cmd := fmt.Sprintf("bin/hrverif check %s --tier %s", prop, tier)
 	return ctx.Finish(verif, seed, start, cmd, extra)
 }
